@@ -928,6 +928,17 @@ type c06ProjCase struct {
 	User    c06Node      // the caller's filter
 	UserTxt kit.B
 	Results []c06Res
+	// Rejected are expressions that are not projections (their last-validated
+	// field is invalid); each is handed to Parse with the same parser and the
+	// same *Filter before Texts[Pos] (after all of them if Pos == len(Texts)).
+	// The oracle ignores them: only a projection removes results.
+	Rejected []c06Rej
+}
+
+type c06Rej struct {
+	Pos    int
+	Text   kit.B
+	Fields []c06Field // the valid fields spelled in Text (documentation of the case; unused by the oracle)
 }
 
 func c06ProjCheck(c c06ProjCase) *kit.Fail {
@@ -942,7 +953,25 @@ func c06ProjCheck(c c06ProjCase) *kit.Fail {
 		spec  c06Field
 	}
 	var all []fixedField
+	rejected := func(pos int) (accepted bool) {
+		for _, rj := range c.Rejected {
+			if rj.Pos != pos {
+				continue
+			}
+			if _, err := pp.Parse(string(rj.Text), f); err == nil {
+				// Whether this text is a projection is C07's subject; if it
+				// is one, its effect on the filter is unknown to this oracle.
+				kit.Count("fixed-list: expression meant to be rejected was accepted (case skipped)", 1)
+				return true
+			}
+			kit.Count("fixed-list: rejected Parse calls on the caller's filter", 1)
+		}
+		return false
+	}
 	for i, text := range c.Texts {
+		if rejected(i) {
+			return nil
+		}
 		proj, err := pp.Parse(string(text), f)
 		if err != nil {
 			return kit.Failf("valid-projection-rejected", "Parse(%q): %v", text, err)
@@ -958,7 +987,17 @@ func c06ProjCheck(c c06ProjCase) *kit.Fail {
 			all = append(all, fixedField{proj, fields[j], spec})
 		}
 	}
+	if rejected(len(c.Texts)) {
+		return nil
+	}
 	what := fmt.Sprintf("projections %q with filter %q", c.Texts, c.UserTxt)
+	if len(c.Rejected) > 0 {
+		var rj []string
+		for _, x := range c.Rejected {
+			rj = append(rj, fmt.Sprintf("%d:%q", x.Pos, x.Text))
+		}
+		what += fmt.Sprintf(" and rejected Parse calls (before index) %v", rj)
+	}
 	for ri := range c.Results {
 		r := &c.Results[ri]
 		// The value of each field is what the projection itself reports for
@@ -1085,6 +1124,116 @@ func c06ProjGen(r *kit.Rand, i int) c06ProjCase {
 	return c
 }
 
+// c06FixedValues draws the values of a fixed list for key: what some of the
+// results really have, plus strangers.
+func c06FixedValues(r *kit.Rand, key string, results []c06Res) []kit.B {
+	var out []kit.B
+	for m := r.Range(1, 4); m > 0; m-- {
+		var v string
+		if r.Chance(0.75) {
+			res := &results[r.Intn(len(results))]
+			v = c06Extract(key, res)
+			if key == ".fullname" && r.Chance(0.7) {
+				v = c06Extract(".name", res)
+			}
+		} else {
+			v = kit.Pick(r, []string{"Foo", "1", "v", "", "linux", "x", "Foo/size=1", "-4", "AND"})
+		}
+		out = append(out, kit.B(v))
+	}
+	return out
+}
+
+// c06ProjGenRejected is c06ProjGen plus 1-3 rejected Parse calls. A rejected
+// expression consists of valid fields (at least one with a fixed value list)
+// on keys that no valid expression of the case uses, and one field that the
+// syntax document rules out: .unit ("only in filters"), an order that is
+// neither alpha nor num nor a list, a fixed list on the tuple-valued .config,
+// or a malformed token (unclosed list, missing order, unterminated string).
+func c06ProjGenRejected(r *kit.Rand, i int) c06ProjCase {
+	c := c06ProjGen(r, i)
+	usedKeys := map[string]bool{}
+	for _, e := range c.Exprs {
+		for _, f := range e {
+			usedKeys[string(f.Key)] = true
+		}
+	}
+	var free []string
+	for _, k := range []string{".name", ".fullname", "/size", "/k", "/gomaxprocs", "/é", "goos", "pkg", "k", ".file", "missing"} {
+		if !usedKeys[k] {
+			free = append(free, k)
+		}
+	}
+	for n := r.Range(1, 3); n > 0; n-- {
+		kit.Shuffle(r, free)
+		nf := r.Range(1, 3)
+		var fields []c06Field
+		for _, key := range free[:nf] {
+			f := c06Field{Key: kit.B(key)}
+			if len(fields) == 0 || r.Chance(0.5) {
+				f.Order = "fixed"
+				f.Fixed = c06FixedValues(r, key, c.Results)
+			} else if r.Chance(0.4) {
+				f.Order = kit.Pick(r, []string{"alpha", "num"})
+			}
+			fields = append(fields, f)
+		}
+		badKey := free[nf] // len(free) >= 5 > nf
+		bad := kit.Pick(r, []string{
+			".unit", ".unit@alpha", ".unit@(ns/op)",
+			badKey + "@alhpa", badKey + "@numeric", badKey + "@ALPHA", badKey + "@x",
+			".config@(x y)",
+			badKey + "@(a b", badKey + "@", "\"abc",
+		})
+		// Mostly after all valid fields, sometimes earlier.
+		at := len(fields)
+		if r.Chance(0.25) && !strings.HasSuffix(bad, "@(a b") && !strings.HasSuffix(bad, "@") && bad != "\"abc" {
+			at = r.Intn(len(fields) + 1) // (malformed tokens stay last: followed by more text they may become well-formed)
+		}
+		sep := func() string { return kit.Pick(r, []string{",", " ", ", "}) }
+		var parts []string
+		if at > 0 {
+			parts = append(parts, c06SpellProj(r, fields[:at]))
+		}
+		parts = append(parts, bad)
+		if at < len(fields) {
+			parts = append(parts, c06SpellProj(r, fields[at:]))
+		}
+		text := parts[0]
+		for _, p := range parts[1:] {
+			text += sep() + p
+		}
+		c.Rejected = append(c.Rejected, c06Rej{Pos: r.Intn(len(c.Texts) + 1), Text: kit.B(text), Fields: fields})
+	}
+	return c
+}
+
+// c06ProjRejNonTrivial: some rejected expression carries a fixed list that
+// would remove at least one of the results if it were (wrongly) installed.
+func c06ProjRejNonTrivial(c c06ProjCase) bool {
+	if !c06ProjNonTrivial(c) {
+		return false
+	}
+	for _, rj := range c.Rejected {
+		for _, f := range rj.Fields {
+			if f.Order != "fixed" || string(f.Key) == ".fullname" {
+				continue
+			}
+			for ri := range c.Results {
+				v := c06Extract(string(f.Key), &c.Results[ri])
+				in := false
+				for _, x := range f.Fixed {
+					in = in || string(x) == v
+				}
+				if !in {
+					return true
+				}
+			}
+		}
+	}
+	return false
+}
+
 func c06ProjNonTrivial(c c06ProjCase) bool {
 	nf := 0
 	for _, e := range c.Exprs {
@@ -1112,5 +1261,11 @@ func TestVerifC06(t *testing.T) {
 		Rule:            "one or two projection expressions parsed by one ProjectionParser with a caller filter ('*' or a random expression), at least one field with a fixed value list (listed values drawn from the results' actual values and strangers; .fullname together with sub-name keys in 1/3 of the cases); 2-6 results each; a result must be kept iff the caller's filter holds and every fixed field's projected value (Key.Get) is listed; non-trivial = >=1 fixed list and >=2 results",
 		HangIsViolation: true,
 	}
-	kit.Run(t, "C06", filters, projs)
+	projsRej := kit.Class[c06ProjCase]{
+		Name: "fixed-list-projections-with-rejected-parses", Quick: 6000, Thorough: 300000,
+		Gen: c06ProjGenRejected, Check: c06ProjCheck, NonTrivial: c06ProjRejNonTrivial, MinNonTrivial: 2500,
+		Rule:            "as fixed-list-projections, plus 1-3 Parse calls with the same parser and the same *Filter on expressions that are not projections (valid fields with fixed lists on keys no valid expression uses, and one field the syntax document rules out: .unit, an order other than alpha/num/list, a list on .config, an unclosed list, a missing order, an unterminated string), placed before, between or after the valid Parse calls; the oracle ignores them (only a projection removes results); a case whose 'invalid' expression is accepted is skipped and counted; non-trivial = as above and some rejected expression carries a fixed list that does not list the value of at least one result",
+		HangIsViolation: true,
+	}
+	kit.Run(t, "C06", filters, projs, projsRej)
 }
